@@ -12,6 +12,8 @@ package raftv2
 //   block, hard state, snapshot, identity, conf-change progress, WalDB.ReadAll(snapshot),
 //   WalDB.ReadAll(nil).
 // kind "val": Cluster.validateChangeMembership on a cluster built from the case.
+// kind "seq": sequences of requests: validateChangeMembership, then the real Cluster.addMember
+//   (applied) / removeMember when accepted; applied and removed id sets after every request.
 // kind "en":  Cluster.isEnableChangeMembership with a raftServer whose raft node is a fake
 //   returning the raft Status (progress map) of the case.
 
@@ -20,6 +22,7 @@ import (
 	"encoding/json"
 	"fmt"
 	"os"
+	"sort"
 	"testing"
 
 	"github.com/aergoio/aergo-lib/db"
@@ -28,6 +31,7 @@ import (
 	"github.com/aergoio/aergo/v2/types"
 	raftlib "github.com/aergoio/etcd/raft"
 	"github.com/aergoio/etcd/raft/raftpb"
+	"github.com/libp2p/go-libp2p/core/crypto"
 	"github.com/rs/zerolog"
 )
 
@@ -53,6 +57,8 @@ type c16Case struct {
 	Gap    uint64    `json:"gap"`
 	Progs  [][]int64 `json:"progs"`
 	Nid    uint64    `json:"nid"`
+	// seq
+	Reqs [][]int64 `json:"reqs"`
 }
 
 const unknownID = 7777777
@@ -405,6 +411,30 @@ func mkCluster(applied, removed [][]int64) *Cluster {
 	return cl
 }
 
+func valCode(err error) int64 {
+	switch err {
+	case nil:
+		return 0
+	case ErrCCMemberIsNil:
+		return 1
+	case consensus.ErrInvalidMemberID:
+		return 2
+	case ErrCCAlreadyRemoved:
+		return 3
+	case ErrInvalidMember:
+		return 4
+	case ErrCCAlreadyAdded:
+		return 5
+	case ErrDupBP:
+		return 6
+	case ErrCCNoMemberToRemove:
+		return 7
+	case ErrInvCCType:
+		return 8
+	}
+	return 99
+}
+
 func runVal(c *c16Case) interface{} {
 	cl := mkCluster(c.Applied, c.Removed)
 	var m *consensus.Member
@@ -415,29 +445,72 @@ func runVal(c *c16Case) interface{} {
 	if m != nil {
 		cc.NodeID = m.ID
 	}
-	err := cl.validateChangeMembership(cc, m, true)
-	code := int64(99)
-	switch err {
-	case nil:
-		code = 0
-	case ErrCCMemberIsNil:
-		code = 1
-	case consensus.ErrInvalidMemberID:
-		code = 2
-	case ErrCCAlreadyRemoved:
-		code = 3
-	case ErrInvalidMember:
-		code = 4
-	case ErrCCAlreadyAdded:
-		code = 5
-	case ErrDupBP:
-		code = 6
-	case ErrCCNoMemberToRemove:
-		code = 7
-	case ErrInvCCType:
-		code = 8
-	}
+	code := valCode(cl.validateChangeMembership(cc, m, true))
 	return map[string]interface{}{"code": code}
+}
+
+var c16Peers [][]byte
+
+// valid libp2p peer ids (addMember / removeMember parse the member's peer id)
+func c16Peer(i int64) []byte {
+	for int64(len(c16Peers)) <= i {
+		_, pub, _ := crypto.GenerateKeyPair(crypto.Secp256k1, 256)
+		id, _ := types.IDFromPublicKey(pub)
+		c16Peers = append(c16Peers, []byte(id))
+	}
+	return c16Peers[i]
+}
+
+func mkMemberP(a []int64) *consensus.Member {
+	m := mkMember(a)
+	m.PeerID = nil
+	if a[3] != 0 {
+		m.PeerID = c16Peer(a[3])
+	}
+	return m
+}
+
+func sortedIDs(m map[uint64]*consensus.Member) []uint64 {
+	ids := make([]uint64, 0, len(m))
+	for id := range m {
+		ids = append(ids, id)
+	}
+	sort.Slice(ids, func(i, j int) bool { return ids[i] < ids[j] })
+	return ids
+}
+
+func runSeq(c *c16Case) interface{} {
+	cl := mkCluster(nil, nil)
+	for _, a := range c.Applied {
+		m := mkMemberP(a)
+		cl.appliedMembers.add(m)
+		cl.members.add(m)
+	}
+	type step struct {
+		Code    int64    `json:"code"`
+		Applied []uint64 `json:"applied"`
+		Removed []uint64 `json:"removed"`
+	}
+	var steps []step
+	for _, r := range c.Reqs {
+		m := mkMemberP(r[1:])
+		cc := &raftpb.ConfChange{Type: raftpb.ConfChangeType(r[0]), NodeID: m.ID}
+		err := cl.validateChangeMembership(cc, m, true)
+		code := valCode(err)
+		if err == nil {
+			if r[0] == 0 {
+				if e := cl.addMember(m, true); e != nil {
+					code = 98
+				}
+			} else {
+				if e := cl.removeMember(m); e != nil {
+					code = 98
+				}
+			}
+		}
+		steps = append(steps, step{code, sortedIDs(cl.appliedMembers.MapByID), sortedIDs(cl.removedMembers.MapByID)})
+	}
+	return map[string]interface{}{"steps": steps}
 }
 
 type fakeRaftNode struct {
@@ -522,6 +595,8 @@ func TestVerifC16Engine(t *testing.T) {
 			res = runVal(&c)
 		case "en":
 			res = runEn(&c)
+		case "seq":
+			res = runSeq(&c)
 		}
 		if err := enc.Encode(res); err != nil {
 			t.Fatal(err)
